@@ -448,6 +448,12 @@ func (r *Raft) setState(s State) {
 			println(r, r.state, "->", s)
 		}
 		r.logger.Info("changing state", r.state, "->", s)
+		if r.state == Leader {
+			// replications read the log from their own goroutines. stop them before
+			// anything else, because the caller might be a request handler, which
+			// goes on to truncate or reset the log before stateLoop calls release
+			r.ldr.stopRepls()
+		}
 		r.state = s
 		if tracer.stateChanged != nil {
 			tracer.stateChanged(r)
